@@ -4,9 +4,13 @@
 1. TLC checks the code-shaped model of migrate.go (spec/Migrate.tla: strict decode, migrateConfig transcribed
    field by field, per-level walk, template choice, encode) against the contract (spec/MigrateContract.tla,
    TreeOK) for every v2 tree of the enumerated families: every key x level (two value styles, explicit
-   null), pairs of keys at one level, every level subset per key, every tree shape (null configs, null
+   null; string-valued settings in seven more styles a normaliser would alter: non-clean paths, templates with
+   inner quotes, bool/number/date look-alikes, NFC/NFD unicode, very long, empty, trailing blank), pairs of keys
+   at one level, every level subset per key, every tree shape (null configs, null
    interfaces, empty/missing packages, one/two configs entries ...), odd package/interface names, inputs
-   that are not v2 files; the thorough tier adds all pairs and -simulate random subsets of the full key set.
+   that are not v2 files, and every layout (working directory same / below / beside the v2 file x --config
+   relative / absolute / discovered x --outfile absent / relative / same base name as the input / absolute x
+   stale output); the thorough tier adds all pairs and -simulate random subsets of the full key set.
 2. Every case is exported with the contract's expectation per level (`req`, `may`, computed in TLA+),
    materialised as a YAML/JSON v2 file and run through the REAL `mockery migrate`; the written v3 file is
    read back with PyYAML and loaded with the real `mockery showconfig` (strict loader).
@@ -568,7 +572,8 @@ def run(ctx):
                     "showconfig_exit": ob.get("load", {}).get("exit"), "argv": ob["argv"], "cwd": ob["cwd"], "style": ob["style"]})
     ctx.assumptions += [
         "small-scope: the families of spec/Migrate.tla Init (single, null, pair, levels, shape, names, bad) exhaustively, random subsets by simulation",
-        "values are markers unique per (key, level) in two styles (plain / YAML-significant text, both polarities of booleans) plus explicit null",
+        "values are markers per (key, level) in nine styles (plain, YAML-significant, non-clean path, template with inner quotes, bool/number/date look-alike, NFC+NFD unicode, very long, empty, trailing blank/tab; both polarities of booleans) plus explicit null",
+        "the v3 file must appear exactly at the path --outfile denotes relative to the working directory (default .mockery_v3.yml); every other file of the scratch tree, the input included, must be byte-identical",
         "a v3 value that is not one of the 14 mapped settings is accepted when the v2 file contained that value at the same level (e.g. with-expecter), as the property says",
         "the loaded `_anchors` map is not compared (the loader merges it key-wise down the hierarchy); the written one is",
         "when a difference shows only with the block-YAML rendering of the input it is reported as drift (yaml.v3 vs PyYAML reading the input), JSON rendering decides",
